@@ -124,6 +124,15 @@ def call_external(I, name, args, kwargs, node, frame):
         k = run.choose([("JSONDecodeError", None), ("RecursionError", None), ("ValueError", None)], "json.loads raises")
         raise E.PyExc(VExc(["JSONDecodeError", "RecursionError", "ValueError"][k]), "json.loads")
     if name == "re.compile":
+        pt = E.simp(args[0].t) if args and isinstance(args[0], VStr) else None
+        if pt is not None and z3.is_string_value(pt):
+            # a literal pattern of the verified source: whether it compiles is decided by compiling it
+            import re as _re
+            try:
+                _re.compile(pt.as_string())
+            except _re.error:
+                raise E.PyExc(VExc("error"), "re.compile")
+            return VAny(_fn("re_compile", z3.StringSort(), AnySort)(args[0].t), "pattern")
         if run.choose([("ok", None), ("re.error", None)], "re.compile"):
             raise E.PyExc(VExc("error"), "re.compile")
         return VAny(_fn("re_compile", z3.StringSort(), AnySort)(args[0].t), "pattern")
